@@ -173,7 +173,9 @@ def run_case(case: dict) -> dict:
             # sensitivity: would a recomputation at (st,t) have given something else?
             sensitive = sensitive or _recompute_differs(ref, st, t)
             # the table of coefficients is asked for at this state, and the derivatives again afterwards (asking changes nothing)
-            model.get_stoichiometries(st, t)
+            tab_ = model.get_stoichiometries(st, t)
+            for v_ in [r_ for r_ in tab_.index if (tab_.loc[r_] != 0).any()]:  # (a variable no reaction touches has no table of its own)
+                model.get_stoichiometries_of_variable(v_, st, t)
             model.get_right_hand_side(st, t)
             model(t, np.array([st[v] for v in model.get_variable_names()], dtype=float))
             # derivatives over a table of states: computed coefficients follow every row's own state and time
